@@ -272,6 +272,13 @@ def check_large(case):
     neg = 1.25 + 2.0 * np.arange(m) - (m - n)  # overlapping ranges, all values distinct
     for sc, ec in CONFIGS:
         o = Scores(pos, neg, nb_easy_pos=ep, nb_easy_neg=en, score_class=sc, equal_class=ec, is_sorted=True)
+        if case.get("k", 0) % 2 == 1:
+            # the same data as one sorted score column with labels (the documented use of is_sorted=True)
+            allv = np.concatenate([pos, neg])
+            lab = np.concatenate([np.ones(n, dtype=int), np.zeros(m, dtype=int)])
+            order = np.argsort(allv, kind="stable")
+            o = Scores.from_labels(lab[order], allv[order], pos_label=1, nb_easy_pos=ep, nb_easy_neg=en, score_class=sc,
+                                   equal_class=ec, is_sorted=True)
         for mt in METRICS:
             Nm = population(mt, n, m, ep, en)
             lo_f, hi_f = achievable_range(mt, n, m, ep, en)
